@@ -14,6 +14,8 @@ decl forms (python tuples):
 var  = dict(name, cls in 'viox eg'.replace(' ',''), const bool, ty in 'b','i',('n',k), init int|None)
 stmt = ('a', target, [rhs]) | ('c', inst, [(formal, var)], [positional], [(out, target)])
      | ('s', target, array, index)          `target := array[index];` (the model sees an assignment with the two names on the right)
+     | ('e', target, value)                 `target := value;` with an enumeration-typed, initialised variable and a value of
+                                            its enumeration (an assignment of a literal for the model)
      an assignment may carry a fourth component (kind, name): it is written inside a statement whose condition / selector /
      control variable is the variable `name` (`IF name > 0 THEN … END_IF`, WHILE, REPEAT … UNTIL, CASE name OF, FOR name := …,
      ELSIF); for the model `name` is one more name read by the statement
@@ -120,6 +122,8 @@ def print_stmt(s, rng=None, indent='  '):
             txt = COND_WRAPS[s[3][0]](nm(s[3][1]), ''.join('  ' + l + '\n' for l in txt.rstrip('\n').split('\n')), indent)
     elif s[0] == 's':
         txt = f'{indent}{nm(s[1])} := {nm(s[2])}[{nm(s[3])}];\n'
+    elif s[0] == 'e':
+        txt = f'{indent}{nm(s[1])} := {nm(s[2])};\n'
     else:
         args = [f'{nm(f)} := {nm(v)}' for f, v in s[2]] + [nm(p) for p in s[3]] + [f'{nm(o)} => {nm(t)}' for o, t in s[4]]
         txt = f"{indent}{nm(s[1])}({', '.join(args)});\n"
@@ -191,6 +195,8 @@ def enc_stmt(s):
         return f"a.{s[1]}.{'+'.join(str(r) for r in (list(s[2]) + ([s[3][1]] if len(s) > 3 and s[3] else [])))}"
     if s[0] == 's':
         return f"a.{s[1]}.{s[2]}+{s[3]}"
+    if s[0] == 'e':
+        return f"a.{s[1]}."
     return f"c.{s[1]}.{'+'.join(f'{a}={b}' for a, b in s[2])}.{'+'.join(str(p) for p in s[3])}.{'+'.join(f'{a}={b}' for a, b in s[4])}"
 
 
@@ -297,9 +303,10 @@ def gen_valid(rng, size=None):
         if rng.random() < 0.4:
             vs.append(dict(var(ns.new(), 'v', 's', rng.randint(0, 3), True), sform=rng.choice(sforms)))
         # enumeration typed locals (always initialised: see Analyze.lean stage 3)
+        enumvars = []
         if rng.random() < 0.6:
             t, vals = rng.choice(enums)
-            vs.append(var(ns.new(), 'v', ('n', t), rng.choice(vals)))
+            ev = var(ns.new(), 'v', ('n', t), rng.choice(vals)); vs.append(ev); enumvars.append((ev['name'], vals))
         if structs and rng.random() < 0.3:
             vs.append(var(ns.new(), 'v', ('n', rng.choice(structs))))
         if strtypes and rng.random() < 0.4:
@@ -330,6 +337,8 @@ def gen_valid(rng, size=None):
                          [rng.choice(ints) for _ in range(rng.randint(0, 3))]))
         for a in arrays:
             body.append(('s', rng.choice(writable), a, rng.choice(ints)))
+        for (en, vals) in enumvars:
+            if rng.random() < 0.6: body.append(('e', en, rng.choice(vals)))
         # some assignments stand inside a statement whose condition / selector / control variable is a variable
         loopvars = [v['name'] for v in vs if v['ty'] == 'i' and v['cls'] == 'v' and not v['const']]
         for j, st in enumerate(body):
@@ -497,6 +506,7 @@ def plant_all(decls, ns, rng):
                             out.append(('call-instance-declared-in-neighbour', 'P0021', mut(i, (k, d[1], vs, body + [('c', finst[0], [], [], [])]))))
             # per statement faults
             for j, s in enumerate(body):
+                if s[0] == 'e': continue
                 if s[0] == 'a' and len(s) > 3 and s[3]:
                     out.append(('undefined-var-condition', 'P0015', mut(i, (k, d[1], vs, body[:j] + [('a', s[1], s[2], (s[3][0], 7996))] + body[j + 1:]))))
                 if s[0] == 's':
